@@ -162,3 +162,47 @@ impl fmt::Debug for RefSet<'_> {
         f.debug_set().entries(self.0.iter().map(|k| Verbatim(k))).finish()
     }
 }
+
+/// Debug formatting under formatter options other than plain / alternate. The standard
+/// `debug_map` / `debug_set` builders hand the caller's options through to every key and value
+/// (`{:x?}` prints hexadecimal entries, `{:5?}` pads each of them ...); "exactly the standard
+/// rendering" therefore includes them. The reference is the standard builder itself over
+/// freshly constructed payload objects in the observed iteration order.
+pub const NFLAGS: usize = 7;
+pub const FLAG_NAMES: [&str; NFLAGS] = ["{:x?}", "{:02X?}", "{:6?}", "{:+?}", "{:.1?}", "{:#x?}", "{:<5?}"];
+
+fn write_flags(s: &mut Sink, x: &dyn fmt::Debug, spec: usize) -> fmt::Result {
+    match spec % NFLAGS {
+        0 => write!(s, "{x:x?}"),
+        1 => write!(s, "{x:02X?}"),
+        2 => write!(s, "{x:6?}"),
+        3 => write!(s, "{x:+?}"),
+        4 => write!(s, "{x:.1?}"),
+        5 => write!(s, "{x:#x?}"),
+        _ => write!(s, "{x:<5?}"),
+    }
+}
+
+pub fn fmt_debug_flags<KD: Kind>(cx: &mut Ctx, x: &dyn fmt::Debug, spec: usize) -> Result<String, Pk> {
+    render(cx, KD::NOALLOC, |s| write_flags(s, x, spec))
+}
+
+/// the reference rendering (harness side: window closed, no allocation accounting)
+pub fn ref_debug_flags(x: &dyn fmt::Debug, spec: usize) -> String {
+    let mut sink = Sink::new();
+    let _ = tl::outside(|| write_flags(&mut sink, x, spec));
+    sink.as_str().to_string()
+}
+
+pub struct RealMap<'a, K, V>(pub &'a [(K, V)]);
+impl<K: fmt::Debug, V: fmt::Debug> fmt::Debug for RealMap<'_, K, V> {
+    fn fmt(&self, f: &mut fmt::Formatter<'_>) -> fmt::Result {
+        f.debug_map().entries(self.0.iter().map(|(k, v)| (k, v))).finish()
+    }
+}
+pub struct RealSet<'a, K>(pub &'a [K]);
+impl<K: fmt::Debug> fmt::Debug for RealSet<'_, K> {
+    fn fmt(&self, f: &mut fmt::Formatter<'_>) -> fmt::Result {
+        f.debug_set().entries(self.0.iter()).finish()
+    }
+}
